@@ -608,6 +608,17 @@ def run(run: Run):
     from . import c18
     run.rule('C02.R6', 'title list, data and sizes are index-aligned per worksheet (shared with C18.R2)')
     borrow(run, 'C02.R6', c18.r2, src)
+    from . import c03 as _c03x
+    from .common import borrow as _bx
+    from ..grammar import get_grammar as _ggx
+    from ..emission import get_emission as _gex
+    from ..callgraph import get_callgraph as _gcx
+    from ..source import get_source as _gsx
+    run.rule('C02.R9', 'every reference reads its cell through the member of the cell (minted by the context for a registered cell; shared with C03.R1/R2)')
+    _sx = _gsx()
+    _bx(run, 'C02.R9', _c03x.r1, _sx, _ggx(_sx), _gex(_sx), _gcx(_sx))
+    _bx(run, 'C02.R9', _c03x.r2, _sx, _gcx(_sx))
+    run.floor('C02.R9', 15)
     run.floor('C02.R6', 5)
     run.rule('C02.R7', 'the reader delivers every stored cell at its coordinate (stream not truncated; shared with C18.R1)')
     borrow(run, 'C02.R7', c18.r1, src)
